@@ -16,7 +16,9 @@
 import json, os, random, subprocess, sys
 from .. import tlc, tlaval, pipeline_common as pc
 
-KWD = {'min1': {'min_occurs': 1}, 'nil0': {'nillable': False}, 'ge5': {'ge': 5}, 'len3': {'max_len': 3}}
+KWD = {'min1': {'min_occurs': 1}, 'nil0': {'nillable': False}, 'ge5': {'ge': 5}, 'len3': {'max_len': 3},
+       'pk1': {'pk': True}, 'pk0': {'pk': False}, 'v03': {'values': ['', 'abc']}, 'v36': {'values': ['abc', 'abcdef']}}
+VALS = {(): 'none', ('', 'abc'): 'v03', ('abc', 'abcdef'): 'v36'}
 NOGE, NOLEN, INF = -999, 999, 99
 
 
@@ -43,7 +45,9 @@ def attrs_of(c):
         return int(v)
     return {'ge': num(getattr(a, 'ge', float('-inf')), 999) if hasattr(a, 'ge') else NOGE,
             'minlen': num(getattr(a, 'min_len', 0), 999), 'maxlen': num(getattr(a, 'max_len', float('inf')), NOLEN),
-            'mino': num(a.min_occurs, INF), 'maxo': num(a.max_occurs, INF), 'nil': bool(a.nillable)}
+            'mino': num(a.min_occurs, INF), 'maxo': num(a.max_occurs, INF), 'nil': bool(a.nillable),
+            'pk': {None: -1, True: 1, False: 0}.get(((getattr(a, 'sqla_column_args', None) or ((), {}))[-1]).get('primary_key'), -7),
+            'vals': VALS.get(tuple(sorted(getattr(a, 'values', None) or ())), '?')}
 
 
 def base_of(c):
@@ -62,7 +66,9 @@ def norm_attrs(a, base):
     else:
         a = dict(a, ge=NOGE if a['ge'] <= -999 else a['ge'])
     if base != 'str':
-        a = dict(a, minlen=0, maxlen=NOLEN)
+        a = dict(a, minlen=0, maxlen=NOLEN, vals='none')
+    if base not in ('int', 'str'):
+        a = dict(a, pk=-1)
     return a
 
 
@@ -72,7 +78,7 @@ def verdicts(c):
         if b == 'int':
             return [bool(c.validate_native(c, v)) for v in (-1, 5, 7)]
         if b == 'str':
-            return [bool(c.validate_string(c, s)) for s in ('', 'abc', 'abcdef')]
+            return [bool(c.validate_string(c, s) and c.validate_native(c, s)) for s in ('', 'abc', 'abcdef')]
     except Exception as e:
         return ['raises %s' % type(e).__name__]
     return []
